@@ -529,7 +529,13 @@ func (k *caseT) verifyOne(c *ev.Ctx, h ev.Hist, t time.Time, tnote, name string,
 			break
 		}
 	}
-	if matched < 0 {
+	// The statement's "relevant chains" are fixed by the code comment and DESIGN §4 as R1. R3/R2 are the looser
+	// readings of the field's doc comment; they are only used to describe the mismatch (a result that follows R3
+	// or R2 but not R1 takes its parents from chains that are not the relevant ones for this verification time).
+	if matched > 0 {
+		viol(fmt.Sprintf("Parents is not the set of distinct second certificates of the relevant chains (Expired=%v): it follows reading %s instead", res.Expired, []string{"", "R3 (valid-at-expiration chains although not expired)", "R2 (valid-at-expiration chains restricted to currently valid parents)"}[matched]),
+			fmt.Sprintf("got %d parents; relevant chains give %d", len(got), len(r1)))
+	} else if matched < 0 {
 		rel := "ValidAtExpirationChains"
 		if !res.Expired {
 			rel = "CurrentChains"
@@ -548,7 +554,7 @@ func (k *caseT) verifyOne(c *ev.Ctx, h ev.Hist, t time.Time, tnote, name string,
 	// --- certificate type: root iff in the root store; else intermediate iff CA with a parent; else leaf iff a parent; else unknown
 	okType := false
 	var wantTypes []string
-	for _, r := range readings {
+	for _, r := range readings[:1] {
 		wt := typeFor(k.isRoot, cert.Desc.To.CA, len(r) > 0)
 		if wt == res.CertificateType {
 			okType = true
@@ -831,8 +837,8 @@ func main() {
 		full := bounds{siblings: true, names: 6, oneCRL: len(oneCRLKinds), crlSet: len(crlSetKinds)}
 		var ruleStates string
 		if c.Quick() {
-			// 8 shapes, at most one certificate outside window 0; the five OneCRL and five CRLSet contents of the design, four names, no siblings
-			bd := bounds{siblings: false, names: 4, oneCRL: 5, crlSet: 5}
+			// 8 shapes, at most one certificate outside window 0; every OneCRL and CRLSet content kind, every name, no siblings
+			bd := bounds{siblings: false, names: 6, oneCRL: len(oneCRLKinds), crlSet: len(crlSetKinds)}
 			for _, s := range shapes[:8] {
 				l := windowAssignments(s, 1)
 				perShape[s.Name] = map[string]int{"states_with_at_most_1_certificate_outside_window_0": len(l)}
